@@ -1,7 +1,199 @@
-import Atomman.Prelude
-open Atomman
+import Atomman.C07
+open Atomman Atomman.C07
 
-/-- stub: replaced when the C07 model is built. -/
-def handleC07 (_toks : List String) : String := err "op"
+/-! line protocol of the C07 model driver (see harness/props/c07.py for the encoder). -/
+
+abbrev P := StateT (List String) Option
+
+def tok : P String := fun s => match s with
+  | [] => none
+  | t :: r => some (t, r)
+
+def pNat : P Nat := do let t ← tok; (t.toNat? : Option Nat)
+def pInt : P Int := do let t ← tok; (t.toInt? : Option Int)
+def pRat : P Rat := do let t ← tok; (parseRat? t : Option Rat)
+def pBool : P Bool := do let t ← tok; (parseBool? t : Option Bool)
+def pStr : P String := do let t ← tok; pure (t.replace "+" " ")
+
+def pMany {α : Type} (n : Nat) (p : P α) : P (List α) := (List.range n).mapM fun _ => p
+
+def pV3 : P (V3 Rat) := do pure ⟨← pRat, ← pRat, ← pRat⟩
+
+def pFmt : P Fmt := do
+  let t ← tok
+  match t.toList with
+  | 'f' :: r => match (String.ofList r).toNat? with | some n => pure (.fixed n) | none => failure
+  | 'e' :: r => match (String.ofList r).toNat? with | some n => pure (.exp n) | none => failure
+  | _ => failure
+
+def pSys : P Sys := do
+  let px ← pBool; let py ← pBool; let pz ← pBool
+  let r0 ← pV3; let r1 ← pV3; let r2 ← pV3; let o ← pV3
+  let natypes ← pNat
+  let n ← pNat
+  let atype ← pMany n pInt
+  let pos ← pMany n pV3
+  let np ← pNat
+  let props ← pMany np do
+    let name ← tok
+    let isInt ← pBool
+    let nc ← pNat
+    let vals ← pMany n (pMany nc pRat)
+    pure ({ name := name, isInt := isInt, ncomp := nc, vals := vals } : Column)
+  pure { box := ⟨⟨r0, r1, r2⟩, o⟩, pbc := ⟨px, py, pz⟩, natypes := natypes, atype := atype, pos := pos, props := props }
+
+def pUnits : P Units := do
+  let n ← pNat
+  pMany n do
+    let k ← tok
+    let t ← tok
+    if t = "none" then pure (k, none) else
+      match parseRat? t with
+      | some f => pure (k, some f)
+      | none => failure
+
+def hexDigit (n : Nat) : Char := if n < 10 then Char.ofNat (48 + n) else Char.ofNat (87 + n)
+
+def toHex (cs : List Char) : String :=
+  String.ofList (cs.flatMap fun c => [hexDigit (c.toNat / 16), hexDigit (c.toNat % 16)])
+
+def hexVal (c : Char) : Option Nat :=
+  if '0' ≤ c ∧ c ≤ '9' then some (c.toNat - 48)
+  else if 'a' ≤ c ∧ c ≤ 'f' then some (c.toNat - 87) else none
+
+def fromHexAux : List Char → Option (List Char)
+  | [] => some []
+  | [_] => none
+  | a :: b :: r => do
+    let x ← hexVal a; let y ← hexVal b; let rest ← fromHexAux r
+    pure (Char.ofNat (x * 16 + y) :: rest)
+
+def fromHex (s : String) : Option (List Char) := if s = "-" then some [] else fromHexAux s.toList
+
+def pHex : P (List Char) := do let t ← tok; (fromHex t : Option (List Char))
+
+def showHex (cs : List Char) : String := if cs = [] then "-" else toHex cs
+
+def showRes (r : Res (List Char)) : String :=
+  match r with
+  | .ok t => "ok " ++ showHex t
+  | .error e => err e
+
+def run {α : Type} (p : P α) (toks : List String) (k : α → String) : String :=
+  match p toks with
+  | some (a, []) => k a
+  | _ => err "format"
+
+def v3s (v : V3 Rat) : String := showRats [v.x, v.y, v.z]
+def hiloS (h : HiLo) : String := showRats [h.xlo, h.xhi, h.ylo, h.yhi, h.zlo, h.zhi, h.xy, h.xz, h.yz]
+def joinToks (l : Line) : String := if l = [] then "-" else "+".intercalate (l.map String.ofList)
+
+def handleC07 (toks : List String) : String :=
+  match toks with
+  | "fmt" :: rest =>
+    run (do let f ← pFmt; let q ← pRat; pure (f, q)) rest fun (f, q) =>
+      "ok " ++ showHex (fmtNum f q) ++ " " ++ showRat (fmtVal f q)
+  | "pnum" :: rest =>
+    run pHex rest fun t => match parseNum? t with
+      | some q => "ok " ++ showRat q
+      | none => err "format"
+  | "pint" :: rest =>
+    run pHex rest fun t => match parseInt? t with
+      | some q => "ok " ++ toString q
+      | none => err "format"
+  | "data" :: rest =>
+    run (do
+      let f ← pFmt; let style ← pStr; let uname ← pStr; let fname ← tok
+      let s ← pSys; let u ← pUnits
+      pure (f, style, uname, fname, s, u)) rest fun (f, style, uname, fname, s, u) =>
+      match writeDataDoc s style u f with
+      | .ok o =>
+        "ok " ++ showHex (renderLines o.doc) ++ " " ++
+          showHex (infoContent s.pbc style uname (if fname = "-" then none else some fname)) ++ " " ++
+          hiloS (hiLoOf o.wrapped.box) ++ " " ++ " ".intercalate (o.wrapped.pos.map v3s) ++ " " ++
+          " ".intercalate (o.wrapped.flags.map fun f => showInts [f.x, f.y, f.z])
+      | .error e => err e
+  | "pdata" :: rest =>
+    run (do let style ← pStr; let eps ← pRat; let t ← pHex; pure (style, eps, t)) rest fun (style, eps, t) =>
+      match parseData t style with
+      | none => err "format"
+      | some d =>
+        let atoms := d.atoms.map fun a =>
+          showInts [a.id, a.type] ++ " " ++ v3s a.pos ++ " " ++ showInts [a.image.x, a.image.y, a.image.z] ++ " " ++
+          v3s (unwrapPos d.hilo a.pos a.image) ++ " " ++ v3s ((boxOfHiLo d.hilo).cartToRel a.pos) ++
+          (if a.fields = [] then "" else " " ++ showRats a.fields)
+        let k := match d.atoms with | a :: _ => a.fields.length | [] => 0
+        let vel := match d.velocities with
+          | none => "0 0"
+          | some v => "1 " ++ toString (match v with | a :: _ => a.fields.length | [] => 0) ++
+              (if v = [] then "" else " " ++ " ".intercalate (v.map fun r => showRats r.fields))
+        "ok " ++ joinToks d.styleHint ++ " " ++ showBool (dataWellFormed d eps) ++ " " ++ toString d.natoms ++ " " ++
+          toString d.ntypes ++ " " ++ hiloS d.hilo ++ " " ++ toString d.atoms.length ++ " " ++ toString k ++
+          (if atoms = [] then "" else " " ++ " ".intercalate atoms) ++ " " ++ vel
+  | "dump" :: rest =>
+    run (do
+      let f ← pFmt; let ts ← pInt
+      let np ← pNat
+      let props ← pMany np do
+        let name ← tok; let nd ← pNat; let dims ← pMany nd pNat; pure (name, dims)
+      let s ← pSys; let u ← pUnits
+      pure (f, ts, props, s, u)) rest fun (f, ts, props, s, u) => showRes (writeDump s props u f ts)
+  | "pdump" :: rest =>
+    run pHex rest fun t =>
+      match parseDump t with
+      | none => err "format"
+      | some d =>
+        let variants := [cs!"x", cs!"xu", cs!"xs", cs!"xsu"].filterMap fun v =>
+          (dumpPositions d v).map fun ps => (v, ps)
+        "ok " ++ toString d.timestep ++ " " ++ toString d.natoms ++ " " ++ showBool d.triclinic ++ " " ++
+          joinToks d.boundary ++ " " ++
+          showRats [d.bbox.xlo, d.bbox.xhi, d.bbox.ylo, d.bbox.yhi, d.bbox.zlo, d.bbox.zhi] ++ " " ++ hiloS d.hilo ++ " " ++
+          toString d.columns.length ++ " " ++ joinToks d.columns ++
+          (if d.rows = [] then "" else " " ++ " ".intercalate (d.rows.map showRats)) ++ " " ++
+          toString variants.length ++
+          (if variants = [] then "" else " " ++ " ".intercalate (variants.map fun (v, ps) =>
+            String.ofList v ++ " " ++ " ".intercalate (ps.map v3s)))
+  | "table" :: rest =>
+    run (do
+      let f ← pFmt; let header ← pBool
+      let nc ← pNat
+      let cols ← pMany nc do
+        let prop ← tok
+        let ut ← tok
+        let unit : UnitSpec := if ut = "none" then .none else if ut = "scaled" then .scaled else .kind ut
+        let nn ← pNat
+        let names ← pMany nn tok
+        pure ({ prop := prop, names := names, unit := unit } : ColSpec)
+      let s ← pSys; let u ← pUnits
+      pure (f, header, cols, s, u)) rest fun (f, header, cols, s, u) => showRes (writeTable s cols u f header)
+  | "poscar" :: rest =>
+    run (do
+      let f ← pFmt; let cstyle ← tok; let scale ← pRat
+      let nh ← pNat; let header ← pMany nh tok
+      let hasSym ← pBool
+      let ns ← pNat; let syms ← pMany ns tok
+      let s ← pSys
+      pure (f, cstyle, scale, header, (if hasSym then some syms else none), s)) rest
+      fun (f, cstyle, scale, header, syms, s) => showRes (writePoscar s header syms cstyle scale f)
+  | "pposcar" :: rest =>
+    run pHex rest fun t =>
+      match parsePoscar t with
+      | none => err "format"
+      | some p =>
+        "ok " ++ showRat p.scale ++ " " ++ showRats p.lattice.toList ++ " " ++
+          (match p.symbols with | some l => joinToks l | none => "-") ++ " " ++
+          toString p.counts.length ++ " " ++ " ".intercalate (p.counts.map toString) ++ " " ++ showBool p.cartesian ++ " " ++
+          toString p.raw.length ++ " " ++ " ".intercalate (p.raw.map v3s) ++ " " ++ " ".intercalate (p.pos.map v3s)
+  | "bbox" :: rest =>
+    run (pMany 9 pRat) rest fun l =>
+      match l with
+      | [a, b, c, d, e, f, xy, xz, yz] =>
+        let h : HiLo := ⟨a, b, c, d, e, f, xy, xz, yz⟩
+        let bb := bboxOf h
+        "ok " ++ showRats [bb.xlo, bb.xhi, bb.ylo, bb.yhi, bb.zlo, bb.zhi] ++ " " ++ hiloS (hiLoOfBBox bb xy xz yz)
+      | _ => err "format"
+  | "lex" :: rest =>
+    run pHex rest fun t => "ok " ++ "|".intercalate ((lexDoc t).map joinToks)
+  | _ => err "op"
 
 def main : IO Unit := runDriver handleC07
